@@ -191,9 +191,16 @@ def d4_indextype(ctx):
 
 def d5_dtype(ctx, RA, step, roles, appenders):
     for v in roles['VALUESDIR']:
-        a = v.args[0] if v.args else None
+        a = v.args[0] if v.args else get_arg(v, None, 'array')
+        obj = step.params[0]
+        a = a_in = a
+        if isinstance(a, ast.Name):
+            # converted earlier in the step (a local or the rebound parameter): take its conversion
+            ds = [x for x, _ in defs_of(step.node, a.id)]
+            a = ds[-1] if ds else a
         ok = isinstance(a, ast.Call) and dotted(a.func) in ('np.asarray', 'np.array') and \
-            norm(get_arg(a, 1, 'dtype') or ast.Constant(0)) in ('self.dtype', 'self._values.dtype', 'self._values._dtype')
+            norm(get_arg(a, 1, 'dtype') or ast.Constant(0)) in (f'{obj}.dtype', f'{obj}._values.dtype', f'{obj}._values._dtype',
+                                                               f'{obj}._dtype')
         ctx.decide(ok, 'R-FLOW', 'D5', step, v, 'item-cast', f'{step.qualname}: each item is converted with the ragged array\'s dtype before it is written',
                    detail='item reaches the values appender unconverted')
     f = ctx.repo.func('raggedarray.asraggedarray')
